@@ -41,6 +41,29 @@ func randomScript(r *rand.Rand, id int, big bool) *Script {
 		}
 		return sc
 	}
+	switch r.Intn(24) {
+	case 0: // a wait of seconds with a Stop inside it: the sleep cannot be interrupted, and the hit in hand is not released early
+		w := 1000 + r.Intn(2000)
+		sc.Workers, sc.MaxWorkers = r.Intn(3), []int{-1, 1, 2}[r.Intn(3)]
+		sc.Waits = []int{r.Intn(2), w, 1 + r.Intn(2)}
+		sc.Lat, sc.Cons = []int{r.Intn(3)}, []int{0}
+		sc.Stops = []StopAt{{At: 20 + r.Intn(w-40), N: 1 + r.Intn(2)}}
+		return sc
+	case 1: // two spikes that saturate the pool, a pause of several request timeouts between them
+		k := 3 + r.Intn(3)
+		sc.Workers, sc.MaxWorkers, sc.TimeoutMs = r.Intn(2), k, 200
+		for i := 0; i < k; i++ {
+			sc.Waits = append(sc.Waits, 0)
+		}
+		sc.Waits = append(sc.Waits, 300+r.Intn(600))
+		for i := 0; i < k-1; i++ {
+			sc.Waits = append(sc.Waits, 0)
+		}
+		sc.Waits = append(sc.Waits, 1)
+		sc.Lat, sc.Cons = []int{100}, []int{0}
+		sc.StopCall = 2*k + 2
+		return sc
+	}
 	sc.Workers = r.Intn(5)
 	sc.MaxWorkers = []int{-1, 1, 1, 2, 2, 3, 4}[r.Intn(7)]
 	n := 1 + r.Intn(7)
